@@ -275,7 +275,7 @@ def run(tier, t0):
                 acc.violation(f'c18:{o}:h={h}:count', f'{total} distinct cells for 4^{h} indices', case)
     acc.sample({'orientation': 'wv', 'level': 5, 'S': 777, 'path': 's_to_anchor -> get_pentagon_vertices -> centre*2^h -> face_to_ij -> ij_to_s'})
     acc.sample({'orientation': 'uw', 'level': 28, 'digits': '3^28'})
-    rule = (f'6 orientations x levels 1..{H} x every index (exhaustive), then levels {H + 1}..28 x all 4^{width} digit windows at every offset over fills 0..3 and G1[single] patterns; '
+    rule = (f'6 orientations x levels 1..{H} x every index (exhaustive), then levels {H + 1}..28 x all 4^{width} digit windows at every offset over fills 0..3 and G1[single] patterns; one index in seven also in its text form; '
             'non-trivial = indices whose cell is distinct from every other cell of their task')
     return common.finish(PID, LEVEL, tier, acc, t0, rule, [
         'a "lattice-cell width" of level h is sqrt(area of the segment triangle / 4^h)',
